@@ -5,6 +5,8 @@
 //!   hdr <commit|tree|blob|tag|ofs|ref> <size> <base>   write_to + size(); base = distance | 40-hex id | -
 //!   hdrdec <bytes>                                     from_bytes and from_read on arbitrary bytes
 //!   lebdec <bytes>                                     gix_features::decode::{leb64, leb64_from_read}
+//!   applyx <base> <delta> [<expect>]                   a one-entry pack (ref-delta) whose base is handed in by the
+//!                                                      `resolve` callback (`ResolvedBase::OutOfPack`, as for thin packs)
 //!   apply <base> <delta> [<expect>]                    a two-entry pack (blob base, ofs-delta) decoded with
 //!                                                      decode_entry; <expect> = rendering of the target the
 //!                                                      delta must produce (`*` = none)
@@ -274,6 +276,44 @@ fn synth_pack(base: &[u8], delta: &[u8]) -> (Vec<u8>, u64) {
     (out, delta_ofs)
 }
 
+/// `PACK` v2 with one entry: a ref-delta holding `delta` whose base is not in the pack
+fn synth_thin_pack(delta: &[u8]) -> (Vec<u8>, u64) {
+    let mut out = gix_pack::data::header::encode(gix_pack::data::Version::V2, 1).to_vec();
+    let ofs = out.len() as u64;
+    Header::RefDelta {
+        base_id: gix_hash::ObjectId::from_bytes_or_panic(&[0x11; 20]),
+    }
+    .write_to(delta.len() as u64, &mut out)
+    .expect("vec");
+    out.extend(deflate(delta));
+    out.extend([0u8; 20]);
+    (out, ofs)
+}
+
+fn decode_thin(path: &std::path::Path, offset: u64, base: Vec<u8>) -> Result<Result<Vec<u8>, String>, String> {
+    let path = path.to_owned();
+    match with_deadline(std::time::Duration::from_secs(20), move || -> Result<Vec<u8>, String> {
+        let pack = gix_pack::data::File::at(&path, gix_hash::Kind::Sha1).map_err(|e| e.to_string())?;
+        let entry = pack.entry(offset).map_err(|e| e.to_string())?;
+        let mut out = Vec::new();
+        let mut inflate = gix_features::zlib::Inflate::default();
+        let resolve = |_id: &gix_hash::oid, out: &mut Vec<u8>| {
+            out.clear();
+            out.extend_from_slice(&base);
+            Some(gix_pack::data::decode::entry::ResolvedBase::OutOfPack {
+                kind: gix_object::Kind::Blob,
+                end: base.len(),
+            })
+        };
+        pack.decode_entry(entry, &mut out, &mut inflate, &resolve, &mut gix_pack::cache::Never)
+            .map_err(|e| e.to_string())?;
+        Ok(out)
+    }) {
+        Some(r) => r,
+        None => Err("no answer within 20 s (hang)".into()),
+    }
+}
+
 /// `Err` = panic or no answer within the deadline (a hang)
 fn decode_in_pack(path: &std::path::Path, offset: u64) -> Result<Result<Vec<u8>, String>, String> {
     let path = path.to_owned();
@@ -438,6 +478,55 @@ fn op_apply(rep: &mut Report, scratch: &Scratch, op: &str, base: &[u8], delta: &
     }
 }
 
+fn op_applyx(rep: &mut Report, scratch: &Scratch, op: &str, base: &[u8], delta: &[u8], expect: Option<&str>) {
+    if delta.is_empty() {
+        rep.note("applyx with an empty delta skipped");
+        return;
+    }
+    if let Some(bs) = declared_base(delta) {
+        if bs > base.len() as u64 {
+            // bytes behind the base are leftovers of the instructions: not a function of (base, delta)
+            rep.case(op, "outside", false);
+            rep.outside_domain("thin delta declares a base size larger than its base");
+            return;
+        }
+    }
+    let (pack, ofs) = synth_thin_pack(delta);
+    static N: std::sync::atomic::AtomicU64 = std::sync::atomic::AtomicU64::new(0);
+    let path = scratch.join(format!("thin-{}.pack", N.fetch_add(1, std::sync::atomic::Ordering::Relaxed)));
+    std::fs::write(&path, &pack).expect("write pack");
+    let r = decode_thin(&path, ofs, base.to_vec());
+    if !matches!(&r, Err(m) if m.contains("hang")) {
+        let _ = std::fs::remove_file(&path);
+    }
+    let obs = match &r {
+        Err(_) => "panic".to_string(),
+        Ok(Err(e)) => format!("err:{}", e.split(':').next().unwrap_or("")),
+        Ok(Ok(t)) => format!("ok {}", bobs(t)),
+    };
+    if let (Err(msg), true) = (&r, std::env::var("C07_DEBUG").is_ok()) {
+        eprintln!("{op}: panic: {msg}");
+    }
+    rep.case(op, &obs, true);
+    let big_base = declared_sizes(delta).map(|(a, b)| base.len() as u64 > 2 * a.max(b)).unwrap_or(false);
+    rep.bucket(&format!(
+        "applyx:{}:{}{}",
+        obs.split([' ', ':']).next().unwrap(),
+        if expect.is_some() { "wellformed" } else { "unchecked" },
+        if big_base { ":base>2*sizes" } else { "" }
+    ));
+    if let Some(want) = expect {
+        rep.oracle_checked();
+        if obs != format!("ok {want}") {
+            rep.oracle_failure(
+                &format!("thin-delta-apply {}", bobs(delta)),
+                &format!("applying the delta to its out-of-pack base gives [{obs}], the target is [{want}]"),
+                op,
+            );
+        }
+    }
+}
+
 fn run_op(rep: &mut Report, scratch: &Scratch, op: &str) {
     let a: Vec<&str> = op.split(' ').collect();
     let ok = (|| -> Option<()> {
@@ -445,6 +534,15 @@ fn run_op(rep: &mut Report, scratch: &Scratch, op: &str) {
             ("hdr", 4) => op_hdr(rep, op, parse_header(a[1], a[3])?, a[2].parse().ok()?),
             ("hdrdec", 2) => op_hdrdec(rep, op, &parse_bytes(a[1])?),
             ("lebdec", 2) => op_lebdec(rep, op, &parse_bytes(a[1])?),
+            ("applyx", 3) => op_applyx(rep, scratch, op, &parse_bytes(a[1])?, &parse_bytes(a[2])?, None),
+            ("applyx", 4) => op_applyx(
+                rep,
+                scratch,
+                op,
+                &parse_bytes(a[1])?,
+                &parse_bytes(a[2])?,
+                if a[3] == "*" { None } else { Some(a[3]) },
+            ),
             ("apply", 3) => op_apply(rep, scratch, op, &parse_bytes(a[1])?, &parse_bytes(a[2])?, None),
             ("apply", 4) => op_apply(
                 rep,
@@ -637,9 +735,11 @@ fn synthetic_apply(r: &mut Rng) -> String {
                 delta = d2;
             }
         }
-        return format!("apply {base_text} {} *", hex(&delta));
+        let which = if r.chance(1, 3) { "applyx" } else { "apply" };
+        return format!("{which} {base_text} {} *", hex(&delta));
     }
-    format!("apply {base_text} {} {}", hex(&delta), bobs(&target))
+    let which = if r.chance(1, 4) { "applyx" } else { "apply" };
+    format!("{which} {base_text} {} {}", hex(&delta), bobs(&target))
 }
 
 // ---------------------------------------------------------------------------------------------
@@ -896,6 +996,21 @@ fn corpus(rep: &mut Report, scratch: &Scratch) {
     ] {
         let want = if want.ends_with(":*") { "*" } else { want };
         run_op(rep, scratch, &format!("apply {base} {delta} {want}"));
+        if base != "-" || delta != "0000" {
+            run_op(rep, scratch, &format!("applyx {base} {delta} {want}"));
+        }
+    }
+    // out-of-pack bases larger than twice every declared size (the delta lies about its base)
+    for (base, delta, want) in [
+        ("6162636465666768", "02029002", "6162"),          // base 8, declared 2, copy 2
+        ("6162636465666768", "0301900161", "*"),               // result size 1, two instructions: too much for the target
+        ("x100:61", "0a0a900a", "61616161616161616161"),   // base 100, declared 10
+        ("x100:6162", "000101ff", "ff"),
+        ("x5:61", "020101ff", "ff"),                        // 5 > 2*2
+        ("x4:61", "020101ff", "ff"),                        // 4 = 2*2: not in the branch
+        ("x70000:0102", "01009001", "*"),
+    ] {
+        run_op(rep, scratch, &format!("applyx {base} {delta} {want}"));
     }
 }
 
